@@ -4,13 +4,14 @@ Import ListNotations.
 From V Require Import Model.Val Model.Delete Proofs.DeleteP.
 Open Scope Z_scope.
 
-Definition deleted_ids (ns : list el) (t : Z) : list Z := ids_of (filter (fun n => below ns [t] (e_h n)) ns).
+Definition deleted_ids (ns : list el) (ts : list Z) : list Z := ids_of (filter (fun n => below ns ts (e_h n)) ns).
 
 (* 1. after a deletion no element that remains exposes a reference (attribute link or link
-      element) to the target or any of its descendants — for every element graph and target *)
-Theorem delete_complete : forall ns t n', In n' (o_nodes (delete ns t)) ->
-  (forall r, In r (e_refs n') -> ra_exposed r = true -> forall u, In u (ra_targets r) -> ~ In u (deleted_ids ns t)) /\
-  (forall u, e_link n' = Some u -> ~ In u (deleted_ids ns t)).
+      element) to any target or any of their descendants — for every element graph and every LIST of targets
+      (`del lst[i]` deletes one, `del lst[a:b]` / `del obj.attr` / a declarative `delete:` several at once) *)
+Theorem delete_complete : forall ns ts n', In n' (o_nodes (delete_many ns ts)) ->
+  (forall r, In r (e_refs n') -> ra_exposed r = true -> forall u, In u (ra_targets r) -> ~ In u (deleted_ids ns ts)) /\
+  (forall u, e_link n' = Some u -> ~ In u (deleted_ids ns ts)).
 Proof. exact no_exposed_reference_left. Qed.
 Print Assumptions delete_complete.
 (* hypotheses (outer and inner) satisfiable together: the demo graph at the end of the file plus a surviving link
@@ -23,32 +24,32 @@ Definition ex_ns : list el :=
 Example delete_complete_hyps_sat :
   let n3 := mkEl 3 None [30] [mkRef 7 true [99]] None in
   let n7 := mkEl 7 (Some 3) [70] [] (Some 60) in
-  In n3 (o_nodes (delete ex_ns 1)) /\ In (mkRef 7 true [99]) (e_refs n3) /\ ra_exposed (mkRef 7 true [99]) = true /\
+  In n3 (o_nodes (delete_many ex_ns [1])) /\ In (mkRef 7 true [99]) (e_refs n3) /\ ra_exposed (mkRef 7 true [99]) = true /\
   In 99 (ra_targets (mkRef 7 true [99])) /\
-  In n7 (o_nodes (delete ex_ns 1)) /\ e_link n7 = Some 60 /\ deleted_ids ex_ns 1 = [10; 20].
+  In n7 (o_nodes (delete_many ex_ns [1])) /\ e_link n7 = Some 60 /\ deleted_ids ex_ns [1] = [10; 20].
 Proof. cbv zeta. vm_compute. intuition. Qed.
 
 (* 2. the target and its descendants are gone, and removed / surviving elements partition the model *)
-Theorem delete_removes_subtree : forall ns t n', In n' (o_nodes (delete ns t)) -> below ns [t] (e_h n') = false.
+Theorem delete_removes_subtree : forall ns ts n', In n' (o_nodes (delete_many ns ts)) -> below ns ts (e_h n') = false.
 Proof. exact deleted_subtree_gone. Qed.
 Print Assumptions delete_removes_subtree.
-Example delete_removes_subtree_hyps_sat : In (mkEl 6 None [60] [mkRef 8 false [20]] None) (o_nodes (delete ex_ns 1)).
+Example delete_removes_subtree_hyps_sat : In (mkEl 6 None [60] [mkRef 8 false [20]] None) (o_nodes (delete_many ex_ns [1])).
 Proof. vm_compute. intuition. Qed.
-Theorem delete_partitions : forall ns t h, In h (map e_h ns) <->
-  In h (o_removed (delete ns t)) \/ In h (map e_h (o_nodes (delete ns t))).
+Theorem delete_partitions : forall ns ts h, In h (map e_h ns) <->
+  In h (o_removed (delete_many ns ts)) \/ In h (map e_h (o_nodes (delete_many ns ts))).
 Proof. exact partition_handles. Qed.
 Print Assumptions delete_partitions.
 
 (* 3. nothing else is removed or altered: every survivor keeps handle, parent, ids, link target, the
       names/order of its reference attributes; non-exposed references are untouched and exposed ones lose
       exactly the deleted ids, order kept; document order of the survivors is kept *)
-Theorem delete_frame : forall ns t n, In n ns ->
-  (below ns [t] (e_h n) ||
-   below ns (map e_h (filter (fun n => negb (below ns [t] (e_h n)) &&
-                                      match e_link n with Some u => memz u (deleted_ids ns t) | None => false end) ns)) (e_h n)) = false ->
-  exists n', In n' (o_nodes (delete ns t)) /\ e_h n' = e_h n /\ e_par n' = e_par n /\ e_ids n' = e_ids n /\ e_link n' = e_link n /\
+Theorem delete_frame : forall ns ts n, In n ns ->
+  (below ns ts (e_h n) ||
+   below ns (map e_h (filter (fun n => negb (below ns ts (e_h n)) &&
+                                      match e_link n with Some u => memz u (deleted_ids ns ts) | None => false end) ns)) (e_h n)) = false ->
+  exists n', In n' (o_nodes (delete_many ns ts)) /\ e_h n' = e_h n /\ e_par n' = e_par n /\ e_ids n' = e_ids n /\ e_link n' = e_link n /\
     map ra_name (e_refs n') = map ra_name (e_refs n) /\
-    Forall2 (fun r' r => if ra_exposed r then ra_targets r' = filter (fun u => negb (memz u (deleted_ids ns t))) (ra_targets r) else r' = r)
+    Forall2 (fun r' r => if ra_exposed r then ra_targets r' = filter (fun u => negb (memz u (deleted_ids ns ts))) (ra_targets r) else r' = r)
             (e_refs n') (e_refs n).
 Proof. exact frame. Qed.
 Print Assumptions delete_frame.
@@ -59,7 +60,7 @@ Example delete_frame_hyps_sat :
   In n ex_ns /\
   (below ex_ns [1] (e_h n) ||
    below ex_ns (map e_h (filter (fun n => negb (below ex_ns [1] (e_h n)) &&
-                                      match e_link n with Some u => memz u (deleted_ids ex_ns 1) | None => false end) ex_ns)) (e_h n)) = false.
+                                      match e_link n with Some u => memz u (deleted_ids ex_ns [1]) | None => false end) ex_ns)) (e_h n)) = false.
 Proof. cbv zeta. split; [right; right; now left|reflexivity]. Qed.
 
 (* 4. all-or-nothing *)
@@ -86,3 +87,18 @@ Example demo :
   o_removed (delete ns 1) = [1; 2; 4; 5] /\
   map (fun n => (e_h n, map ra_targets (e_refs n))) (o_nodes (delete ns 1)) = [(3, [[99]]); (6, [[20]])].
 Proof. split; reflexivity. Qed.
+
+(* 5. several targets at once: one holder whose relation refers to two of the deleted objects loses both; the
+      once-per-(holder, relation) purge of a seeded change leaves the second behind *)
+Example delete_many_demo :
+  let ns := [mkEl 1 None [10] [] None; mkEl 2 None [20] [] None; mkEl 8 None [80] [] None;
+             mkEl 3 None [30] [mkRef 7 true [10; 80; 20]] None; mkEl 4 (Some 3) [40] [] (Some 10); mkEl 5 (Some 3) [50] [] (Some 20)] in
+  o_removed (delete_many ns [1; 2]) = [1; 2; 4; 5] /\
+  map (fun n => (e_h n, map ra_targets (e_refs n))) (o_nodes (delete_many ns [1; 2])) = [(8, []); (3, [[80]])].
+Proof. split; reflexivity. Qed.
+Theorem purge_once_per_relation_refuted :
+  let ns := [mkEl 1 None [10] [] None; mkEl 2 (Some 1) [20] [] None; mkEl 3 None [30] [mkRef 7 true [10; 20]] None] in
+  o_nodes (delete_many_once ns [1]) = [mkEl 3 None [30] [mkRef 7 true [20]] None] /\
+  o_nodes (delete_many ns [1]) = [mkEl 3 None [30] [mkRef 7 true []] None].
+Proof. exact purge_once_refuted. Qed.
+Print Assumptions purge_once_per_relation_refuted.
